@@ -99,6 +99,7 @@ type Lemma struct {
 	Assumes []*Clause
 	Shows   []*Clause
 	Calls   []*Clause // "r = f(args)" / "call recv.m(args)" steps
+	Items   []LemmaItem // assume/step/show in source order
 	Line    int
 	File    string
 }
@@ -146,6 +147,11 @@ func parseExprText(s string) (ast.Expr, error) {
 		return nil, fmt.Errorf("contract expression %q: %v", s, err)
 	}
 	return e, nil
+}
+
+type LemmaItem struct {
+	Kind string // assume | step | show
+	Cl   *Clause
 }
 
 type rawItem struct {
@@ -365,14 +371,18 @@ func (pc *PkgContracts) addItem(it *rawItem, path string) error {
 					return err
 				}
 				lm.Assumes = append(lm.Assumes, cl)
+				lm.Items = append(lm.Items, LemmaItem{"assume", cl})
 			case "show", "ensures":
 				cl, err := mkClause(c, path)
 				if err != nil {
 					return err
 				}
 				lm.Shows = append(lm.Shows, cl)
+				lm.Items = append(lm.Items, LemmaItem{"show", cl})
 			case "step":
-				lm.Calls = append(lm.Calls, &Clause{Text: strings.TrimSpace(c.text), Line: c.line, File: path})
+				scl := &Clause{Text: strings.TrimSpace(c.text), Line: c.line, File: path}
+				lm.Calls = append(lm.Calls, scl)
+				lm.Items = append(lm.Items, LemmaItem{"step", scl})
 			default:
 				return fmt.Errorf("bad lemma clause %s", c.kw)
 			}
